@@ -676,6 +676,127 @@ func checkC16(p *Prog, r *Report) {
 			r.Check(okAll && n >= 1, "UnmarshalCandidate keeps the address token verbatim", p.Pos(f.Body.Pos()), "token through substring operations only", "the parsed address is "+why+": Address() of the parsed candidate differs from the text that was marshalled")
 		}
 	}
+	// ---- R16.4 every compared component is written ----------------------------------------------
+	r.Rule("R16.4", "Marshal writes the related address whenever the candidate has one with a non-empty address: no other condition (such as a zero port, which is how a hidden related address 0.0.0.0:0 is spelled) may veto it, because Equal compares the related address and Unmarshal accepts rport 0.", 1)
+	if f := p.Fn("candidateBase.Marshal"); f != nil {
+		t := p.NewTable(f)
+		t.Event = func(n ast.Node, _ *TEnv) []string {
+			for _, c := range p.NodeCalls(n) {
+				if p.CalleeName(c) == "fmt.Sprintf" && len(c.Args) > 0 {
+					if v, ok := p.ConstVal(c.Args[0]); ok && strings.Contains(v, "raddr") {
+						return []string{"raddr"}
+					}
+				}
+			}
+			return nil
+		}
+		t.Run()
+		rows, bad := 0, ""
+		for _, pa := range t.Paths {
+			present, named := false, false
+			var other []string
+			for _, d := range pa.Hist {
+				sel, isSel := unparen(d.Atom.X).(*ast.SelectorExpr)
+				switch {
+				case isSel && p.IsField(sel, "CandidateRelatedAddress.Address"):
+					named = d.Val == `!=""`
+				case isSel && p.FieldOf(sel) != nil && strings.HasPrefix(p.FieldName(p.FieldOf(sel)), "CandidateRelatedAddress."):
+					other = append(other, stripVarLines(d.Atom.Key)+d.Val)
+				case d.Atom.Kind == "enum" && (d.Val == "!=nil" || d.Val == "==nil"):
+					if c, _, ok := p.ResolveCall(f, d.Atom.X); ok && strings.HasSuffix(p.CalleeName(c), ".RelatedAddress") {
+						present = d.Val == "!=nil"
+					}
+				}
+			}
+			if !present || !named {
+				continue
+			}
+			rows++
+			emitted := false
+			for _, e := range pa.Events {
+				if e == "raddr" {
+					emitted = true
+				}
+			}
+			if !emitted {
+				bad = "a related address with a non-empty address is not written when " + strings.Join(other, ", ")
+			}
+		}
+		r.Check(bad == "" && rows > 0, "Marshal writes every related address that has an address", p.Pos(f.Body.Pos()), fmt.Sprintf("%d rows", rows), bad+": such a candidate (e.g. raddr 0.0.0.0 rport 0) does not survive Marshal/Unmarshal — the parsed copy has no related address and is not Equal")
+	}
+	// ---- R16.5 every component is written ---------------------------------------------------------------
+	r.Rule("R16.5", "Every component the round trip must preserve is written by Marshal on every path: foundation, component, transport, priority, address, port and type unconditionally; the related address and the extensions (which include the TCP type) through their accessors; each extension is written as key and value.", 3)
+	if f := p.Fn("candidateBase.Marshal"); f != nil {
+		g := p.CFG(f)
+		var missing []string
+		for _, acc := range []string{"Foundation", "Component", "NetworkType", "Priority", "Address", "Port", "Type", "RelatedAddress", "marshalExtensions"} {
+			name := acc
+			_, escapes := g.PathAvoiding(Loc{g.Entry, 0}, func(n ast.Node) bool {
+				return p.nodeHasCall(n, func(c *ast.CallExpr) bool {
+					cn := p.CalleeName(c)
+					return cn == "ice.candidateBase."+name || cn == "ice.Candidate."+name
+				})
+			}, func(b *Block) bool { return b == g.Exit }, nil)
+			if escapes {
+				missing = append(missing, acc)
+			}
+		}
+		r.Check(len(missing) == 0, "Marshal reads every component on every path", p.Pos(f.Body.Pos()), "foundation … extensions", "a path through Marshal does not consult "+strings.Join(missing, ", ")+": that component is lost in the textual form")
+		// and what it reads is what it prints: each accessor result flows into a Sprintf argument
+		printed := map[string]bool{}
+		for _, c := range p.CallsTo(f, false, "fmt.Sprintf") {
+			for _, a := range c.Args[1:] {
+				for _, src := range p.callsFeeding(f, a, 0, map[types.Object]bool{}) {
+					printed["call:"+src] = true
+				}
+				ast.Inspect(a, func(n ast.Node) bool {
+					if cc, ok := n.(*ast.CallExpr); ok {
+						printed["call:"+p.CalleeName(cc)] = true
+					}
+					if sel, ok := n.(*ast.SelectorExpr); ok && p.FieldOf(sel) != nil {
+						printed["field:"+p.FieldName(p.FieldOf(sel))] = true
+					}
+					return true
+				})
+			}
+		}
+		var unprinted []string
+		for _, want := range []string{"call:ice.candidateBase.Foundation", "call:ice.candidateBase.Component", "call:ice.NetworkType.NetworkShort", "call:ice.candidateBase.Priority", "call:ice.candidateBase.Address", "call:ice.candidateBase.Port", "call:ice.candidateBase.Type", "field:CandidateRelatedAddress.Address", "field:CandidateRelatedAddress.Port", "call:ice.candidateBase.marshalExtensions"} {
+			if !printed[want] {
+				unprinted = append(unprinted, strings.TrimPrefix(strings.TrimPrefix(want, "call:ice."), "field:"))
+			}
+		}
+		r.Check(len(unprinted) == 0, "Marshal prints every component it reads", p.Pos(f.Body.Pos()), "each accessor result reaches a Sprintf argument", "not printed: "+strings.Join(unprinted, ", "))
+	}
+	if f := p.Fn("candidateBase.marshalExtensions"); r.Anchor("candidateBase.marshalExtensions", f != nil) {
+		usesAll := len(p.CallsTo(f, false, "ice.candidateBase.Extensions", "ice.Candidate.Extensions")) == 1
+		key, val := false, false
+		walkBody(f, func(n ast.Node) bool {
+			if sel, ok := n.(*ast.SelectorExpr); ok {
+				key = key || p.IsField(sel, "CandidateExtension.Key")
+				val = val || p.IsField(sel, "CandidateExtension.Value")
+			}
+			return true
+		})
+		// every element is written: no break / continue / early return in the loop
+		skips := false
+		walkBody(f, func(n ast.Node) bool {
+			if rs, ok := n.(*ast.RangeStmt); ok {
+				ast.Inspect(rs.Body, func(x ast.Node) bool {
+					switch y := x.(type) {
+					case *ast.BranchStmt:
+						skips = true
+					case *ast.ReturnStmt:
+						_ = y
+						skips = true
+					}
+					return true
+				})
+			}
+			return true
+		})
+		r.Check(usesAll && key && val && !skips, "marshalExtensions writes every extension (TCP type included) as key and value", p.Pos(f.Body.Pos()), "ranges over Extensions(), writes Key and Value, skips none", fmt.Sprintf("uses Extensions()=%v key=%v value=%v skips elements=%v", usesAll, key, val, skips))
+	}
 	if f := p.Fn("readCandidateStringToken"); r.Anchor("readCandidateStringToken", f != nil) {
 		okAll, n := true, 0
 		walkBody(f, func(nd ast.Node) bool {
@@ -767,4 +888,30 @@ func conjuncts(e ast.Expr) []ast.Expr {
 		return append(conjuncts(b.X), conjuncts(b.Y)...)
 	}
 	return []ast.Expr{e}
+}
+
+// callsFeeding: the callees whose results can reach e through local definitions.
+func (p *Prog) callsFeeding(f *Func, e ast.Expr, depth int, seen map[types.Object]bool) []string {
+	var out []string
+	if depth > 6 {
+		return nil
+	}
+	ast.Inspect(e, func(n ast.Node) bool {
+		switch x := n.(type) {
+		case *ast.CallExpr:
+			out = append(out, p.CalleeName(x))
+		case *ast.Ident:
+			o := p.ObjOf(x)
+			if v, ok := o.(*types.Var); ok && !v.IsField() && !seen[o] {
+				seen[o] = true
+				for _, d := range p.DefsOf(f, o) {
+					if d.Rhs != nil {
+						out = append(out, p.callsFeeding(f, d.Rhs, depth+1, seen)...)
+					}
+				}
+			}
+		}
+		return true
+	})
+	return out
 }
